@@ -198,9 +198,20 @@ def run(ctx):
 def replay(ctx, rep):
     c = rep['case']
     replay_case(ctx, tuple(c['kinds']), c['key'], c['chain'])
-    for m in ctx.mismatches:
+    return report_replay(ctx, rep)
+
+
+
+def report_replay(ctx, rep):
+    """exit 1 iff the saved disagreement (same signature) shows again."""
+    hits = [m for m in ctx.mismatches if m.signature == rep.get('signature')]
+    for m in hits:
         print('REPRODUCED', m.signature, m.detail)
-    return 1 if ctx.mismatches else 0
+    for sig in sorted(set(m.signature for m in ctx.mismatches if m not in hits)):
+        print('NOT-THE-SAVED-CASE: this run shows', sig)
+    if not hits:
+        print('not reproduced:', rep.get('signature'))
+    return 1 if hits else 0
 
 
 META = {
